@@ -403,8 +403,10 @@ class Run:
         ev = dict(property_id=self.pid, tier=self.tier, seed=self.seed, level=level, coverage=cov,
                   assumptions=list(self.assumptions) + list(extra_assumptions),
                   wall_s=round(time.time() - self.t0, 1), violations=len(self.violations))
-        os.makedirs(os.path.join(VERIF, "evidence"), exist_ok=True)
-        json.dump(ev, open(os.path.join(VERIF, "evidence", self.pid + ".json"), "w"), indent=1)
+        # evidence describes /repo; a run pointed at another tree (mutant / seeded-change testing) must not overwrite it
+        evdir = os.path.join(VERIF, "evidence") if os.path.realpath(self.repo) == "/repo" else os.path.join(tempfile.gettempdir(), "verif-evidence-other-tree")
+        os.makedirs(evdir, exist_ok=True)
+        json.dump(ev, open(os.path.join(evdir, self.pid + ".json"), "w"), indent=1)
         shutil.rmtree(self.work, ignore_errors=True)
         log("%s %s tier=%s seed=%d states=%d traces=%d wall=%.0fs" %
             (self.pid, "VIOLATED" if self.violations else "held", self.tier, self.seed, cov["states"],
